@@ -116,14 +116,15 @@ Definition subset_ids (table : list Z) (name : Z) : list Z := subset_from 0 tabl
 
 (* one name column: for name in v: constraints.update(ids or [-1]);
    None and [] are filtered out by bool(t[1]) *)
+Definition name_ids (table : list Z) (n : Z) : list item :=
+  match subset_ids table n with
+  | [] => [Idx (-1)]                 (* subtable empty: [-1] *)
+  | ids => map Idx ids               (* subtable.values() *)
+  end.
 Definition name_constraint (table : list Z) (v : option (list Z)) : list item :=
   match v with
   | None => []
-  | Some names =>
-      flat_map (fun n => match subset_ids table n with
-                         | [] => [Idx (-1)]
-                         | ids => map Idx ids
-                         end) names
+  | Some names => flat_map (name_ids table) names
   end.
 
 (* the runids column: update(v); discard(-1) *)
